@@ -172,9 +172,35 @@ def rw_remove_workload(ver, maxbuf):
     return {"ver": ver, "maxbuf": maxbuf, "mode": "rw_faults", "streams": streams, "ops": ops}
 
 
+def rw_two_handle_workload(ver, maxbuf):
+    """Two handles: a write-back of /a that changes its size class (mini -> regular, later regular -> mini) may
+    fail; while that handle is set aside with the failure outstanding, /b (/c) is created in the space the
+    failed call may have released, written and flushed; then /a's call is retried.  Every stream that was
+    flushed with Ok and that no failed call touched must still read back."""
+    f = gens.Fill()
+    rng = random.Random(31)
+    streams = [{"name": "bar", "runs": f.runs(rng, 5000)}]
+    wa = lambda n: {"op": "write_all", "runs": f.runs(rng, n)}
+    FL = [{"op": "flush"}, {"op": "position"}, {"op": "flush"}, {"op": "fresh_read"}]
+    other = lambda nm, n: [{"op": "park"}, {"op": "create_stream", "name": nm}, {"op": "create_stream", "name": nm}, wa(n), {"op": "position"}] + FL + \
+                          [{"op": "close"}, {"op": "unpark"}]
+    ops = [{"op": "open"}, {"op": "create_stream", "name": "a"}, {"op": "create_stream", "name": "a"}, wa(3000), {"op": "position"}] + FL
+    # mini -> regular: the write-back of the next 2000 bytes migrates /a
+    ops += [wa(2000), {"op": "position"}, {"op": "flush"}, {"op": "position"}] + other("b", 3000) + FL
+    # regular -> mini: set_len below the cutoff migrates /a back
+    ops += [{"op": "set_len", "n": 2500}, {"op": "position"}] + other("c", 6000) + [{"op": "set_len", "n": 2500}, {"op": "position"}] + FL
+    # to nothing: the chain is released
+    ops += [{"op": "set_len", "n": 0}, {"op": "position"}] + other("d", 2000) + [{"op": "set_len", "n": 0}, {"op": "position"}] + FL + [{"op": "close"}]
+    for nm in ("b", "c", "d", "bar", "a"):
+        ops += [{"op": "open_stream", "name": nm}, {"op": "open_stream", "name": nm}, {"op": "fresh_read"}, {"op": "read_to_end"}, {"op": "close"}]
+    return {"ver": ver, "maxbuf": maxbuf, "mode": "rw_faults", "streams": streams, "ops": ops}
+
+
 def rw_workload(ver, maxbuf, variant=0):
     if variant == 2:
         return rw_remove_workload(ver, maxbuf)
+    if variant == 3:
+        return rw_two_handle_workload(ver, maxbuf)
     f = gens.Fill()
     rng = random.Random(11 + variant)
     streams = [{"name": "bar", "runs": f.runs(rng, 5000)}]
